@@ -3,6 +3,7 @@ from __future__ import annotations
 
 import io
 import os
+import pathlib
 import tempfile
 import warnings
 from typing import Any, List, Optional, Tuple
@@ -205,14 +206,22 @@ def check_tree(run, rng, tree, engine: str, case_id: Any, share: Optional[bool] 
                           witness={'default': texts[0][1], 'other': text}, case=case, engine=engine,
                           key='option-dependent-output' if label != 'export()' else 'export-differs')
     # --- parse each text under one delivery each (rotating), plus the default text under all three
-    deliveries = ['str', 'chunks', 'file', 'realfile']
+    deliveries = ['str', 'chunks', 'file', 'realfile', 'tokenizer']
     for ti, (label, text) in enumerate(texts):
         for di, how in enumerate(deliveries):
-            if ti != 0 and di != (ti + case_id if isinstance(case_id, int) else ti) % 4:
+            if ti != 0 and di != (ti + case_id if isinstance(case_id, int) else ti) % 5:
                 continue
             closer = None
+            fname: Any = ''
             if how == 'str':
                 src: Any = text
+            elif how == 'tokenizer':
+                # "file_contents may be an already created tokenizer": the one parse() itself would build; the file
+                # name (used for messages only) is given as str or as a path object
+                from srctools.tokenizer import Tokenizer
+                src = Tokenizer(random_chunks(rng, text, 6) if rng.random() < 0.5 else text, string_bracket=True, allow_escapes=True)
+                fname = rng.choice(('', 'dir/some file.txt', pathlib.PurePosixPath('dir/some file.txt')))
+                run.count('prebuilt_tokenizer_deliveries')
             elif how == 'chunks':
                 src = random_chunks(rng, text, 10)
             elif how == 'file':
@@ -239,7 +248,7 @@ def check_tree(run, rng, tree, engine: str, case_id: Any, share: Optional[bool] 
                 run.count('real_file_deliveries')
             diff = err = None
             try:
-                parsed = Keyvalues.parse(src)
+                parsed = Keyvalues.parse(src, fname) if how == 'tokenizer' else Keyvalues.parse(src)
                 run.count('parse_calls')
             except KeyValError as exc:
                 err = f'{exc.mess} (line {exc.line_num})'
@@ -339,7 +348,7 @@ def main(run, shard=(0, 1)) -> None:
     probe.report(run)
     probe.check_reached(run)
     run.require('serialise_calls', 'parse_calls', 'real_file_deliveries', 'roundtrips_after_edit', 'trees_with_escape_char_in_block_name',
-                'trees_with_one_object_in_two_places')
+                'trees_with_one_object_in_two_places', 'prebuilt_tokenizer_deliveries')
 
 
 def replay(run, data) -> None:
